@@ -5,6 +5,7 @@ import MosnVerif.Model.FrameSpec
 import MosnVerif.Model.FrameH2
 import MosnVerif.Model.ReadLoop
 import MosnVerif.Model.ReadLoopSpec
+import MosnVerif.Drive.DispatchCtx
 /-! driver of C07 (segmentation independence): see `run` for the case kinds. Core Lean only. -/
 namespace MosnVerif.Drive.C07
 open MosnVerif.Model.FramingS MosnVerif.Model.FrameH2 MosnVerif.Gen.FrameConsts
@@ -266,6 +267,7 @@ def run (caseToks impl : List String) : String :=
   | ["h2cuts", stream, lens] => h2cuts stream lens impl
   | ["rl", proto, stream, lens, dflt, _script] => rl false proto stream lens dflt impl
   | ["rlnp", proto, stream, lens, dflt, _script] => rl true proto stream lens dflt impl
+  | ["ctx", proto, _stream, frames, chunks] => MosnVerif.Drive.DispatchCtx.run proto frames chunks impl
   | _ => "E E unknown-kind"
 
 end MosnVerif.Drive.C07
